@@ -13,6 +13,7 @@ mod names;
 mod ops;
 mod prng;
 mod runner;
+mod selftest;
 mod snapshot;
 mod twin;
 
@@ -27,6 +28,7 @@ fn main() {
     let code = match args.get(1).map(|s| s.as_str()) {
         Some("check") if args.len() >= 4 => runner::check(&args[2], &args[3]),
         Some("replay") if args.len() >= 3 => runner::replay(&args[2]),
+        Some("selftest") => selftest::selftest(args.get(2).and_then(|s| s.parse().ok()).unwrap_or(300)),
         Some("gen") if args.len() >= 6 => {
             let p = gen::Profile::parse(&args[3]).expect("profile");
             let t = gen::generate(&args[2], p, args[4].parse().unwrap(), args[5].parse().unwrap());
